@@ -123,3 +123,38 @@ Qed.
 Lemma src_set_sink_ok s :
   rxq_set_sink s = mkRxq true (snd (src_set_sink (q_queue s))) (q_out s ++ fst (src_set_sink (q_queue s))).
 Proof. reflexivity. Qed.
+
+(* Multiplexer.acceptable_frame_size is the model's acceptance test *)
+Lemma src_acceptable_ok n m : src_acceptable n m = acceptable n m.
+Proof.
+  unfold src_acceptable, acceptable, rfcomm_max_frame_size, rfcomm_min_frame_size.
+  f_equal. rewrite Z.geb_leb. reflexivity.
+Qed.
+
+(* every data link the code lets come up - the responder's acceptable_frame_size test of the
+   PN command and the initiator's test of the PN response both pass, on the 16-bit values
+   that travel in the PN - satisfies the hypothesis of the data-path theorems, provided the
+   two configured initial credit counts are in 1..7 and the configured frame sizes fit the
+   16-bit field *)
+Lemma accepted_links_wf ini rsp mtu_i mtu_r :
+  credits_ok_b ini = true -> credits_ok_b rsp = true ->
+  0 <= pn_mfs ini < 65536 -> 0 <= pn_mfs rsp < 65536 ->
+  src_acceptable (pn_mfs (pn_wire ini)) mtu_i = true ->
+  src_acceptable (pn_mfs (pn_wire rsp)) mtu_r = true ->
+  wf_link_b ini rsp mtu_i mtu_r = true.
+Proof.
+  intros Hci Hcr Hi Hr Ai Ar. rewrite src_acceptable_ok in Ai, Ar.
+  unfold pn_wire in Ai, Ar. cbn [pn_mfs] in Ai, Ar.
+  rewrite Z.mod_small in Ai by lia. rewrite Z.mod_small in Ar by lia.
+  unfold wf_link_b. rewrite Hci, Hcr, Ai, Ar. reflexivity.
+Qed.
+
+(* and the code refuses every other pair of frame sizes: pn_negotiate = 2 exactly then *)
+Lemma pn_negotiate_up ini rsp mtu_i mtu_r :
+  pn_negotiate ini rsp mtu_i mtu_r = 2 <->
+  src_acceptable (pn_mfs (pn_wire ini)) mtu_i = true /\ src_acceptable (pn_mfs (pn_wire rsp)) mtu_r = true.
+Proof.
+  unfold pn_negotiate. rewrite !src_acceptable_ok.
+  destruct (acceptable (pn_mfs (pn_wire ini)) mtu_i); destruct (acceptable (pn_mfs (pn_wire rsp)) mtu_r);
+    cbn; split; try tauto; try discriminate; intros [? ?]; discriminate.
+Qed.
